@@ -26,14 +26,19 @@ LEVEL_NOTE = (
 )
 FLOOR_NONTRIVIAL = 20
 
-M2 = [1.51**2, 4.92**2, 172.5**2]
+# matching scales are perfect squares so that a reference point can sit on one of them bit-exactly
+WALLS = [4.0, 12.25, 30625.0]  # (2 GeV)^2, (3.5 GeV)^2, (175 GeV)^2
 RATIOS = [2.0, 0.5, 1.0]
-WALLS = [m * r for m, r in zip(M2, RATIOS)]
+M2 = [w / r for w, r in zip(WALLS, RATIOS)]
 
 CONFIGS = [
     # order, method, running, scheme, ref (mu, nf)
     dict(order=[1, 0], method="expanded", running=False, scheme="POLE", ref=[91.2, 5]),
     dict(order=[3, 0], method="expanded", running=False, scheme="POLE", ref=[math.sqrt(WALLS[1]), 5]),
+    # continuous matching (LO / NLO with mu=m) with the reference on the wall: segments of two different nf
+    # start from the same coupling at the same scale
+    dict(order=[1, 0], method="expanded", running=False, scheme="POLE", ref=[math.sqrt(WALLS[1]), 5]),
+    dict(order=[2, 0], method="expanded", running=False, scheme="MSBAR", ref=[math.sqrt(WALLS[2]), 6]),
     dict(order=[4, 0], method="expanded", running=False, scheme="MSBAR", ref=[91.2, 5]),
     dict(order=[2, 1], method="expanded", running=True, scheme="POLE", ref=[1.8, 3]),
     dict(order=[3, 2], method="expanded", running=True, scheme="MSBAR", ref=[math.sqrt(WALLS[0]), 4]),
@@ -139,9 +144,31 @@ def evaluate(case):
         if c.a_ref.tobytes() != a_ref0:
             res.fail(sigbase + "/a_ref-changed", f"cfg={cfg} history={hist}: a_ref changed to {c.a_ref.tolist()}")
             return res
-    res.info = {"state": _state_key(c, case["op"]), "max_cache_entries": len(c.cache), "hits": served_from_cache}
+        state = _state_key(c, case["op"])
+        ncache = len(c.cache)
+        # closing probe (part of the oracle, not of the history): every query of the history is asked once
+        # more; whatever the history left behind in the object must not show in any of these answers
+        seen = []
+        for op in hist:
+            if op[0] == "q" and op not in seen:
+                seen.append(op)
+        for op in seen:
+            try:
+                got = np.array(c.a(op[1], op[2]), dtype=float)
+            except Exception as e:  # noqa
+                res.fail(sigbase + "/raises", f"cfg={cfg} history={hist} then {op}: {type(e).__name__}: {e}")
+                return res
+            if got.tobytes() != _fresh_answer(cfg, op):
+                kind = "after-caller-mutation" if ["mut"] in hist else "after-queries"
+                res.fail(
+                    f"{sigbase}/{kind}",
+                    f"cfg={cfg}: after history {hist} the (repeated) query {op} returns {got.tolist()} but a fresh "
+                    f"object returns {np.frombuffer(_fresh_answer(cfg, op)).tolist()}",
+                )
+                return res
+    res.info = {"state": state, "max_cache_entries": ncache, "hits": served_from_cache}
     res.nontrivial = served_from_cache > 0 or (case["op"][0] == "mut" and len(hist) > 1)
-    res.outcome = f"{'mut' if case['op'][0] == 'mut' else 'query'}/cachehit={last_was_hit}/entries={min(len(c.cache), 6)}"
+    res.outcome = f"{'mut' if case['op'][0] == 'mut' else 'query'}/cachehit={last_was_hit}/entries={min(ncache, 6)}"
     return res
 
 
